@@ -27,11 +27,11 @@ namespace {
 enum FaultId { F_preemption, F_child_first, F_parent_first, F_lock_contention };
 const char* const kFaultNames[] = { "preemption", "child_runs_first_at_create", "parent_runs_first_at_create", "mutex_contention" };
 enum ProbeId { P_threads_2, P_threads_3_4, P_threads_5_8, P_threads_9_16, P_job_returned, P_job_threw, P_job_with_usage,
-               P_different_separators, P_job_evaluated_repeatedly, P_policy_random, P_policy_pct, P_policy_rr, P_policy_explicit,
+               P_different_separators, P_job_evaluated_repeatedly, P_policy_random, P_policy_pct, P_policy_rr,
                P_switches_over_100 };
 const char* const kProbeNames[] = { "threads_2", "threads_3_to_4", "threads_5_to_8", "threads_9_to_16", "job_returned", "job_threw",
                "job_printed_usage_groups_singleton", "neighbouring_threads_with_different_separators", "job_evaluated_repeatedly",
-               "policy_random", "policy_pct", "policy_rr", "policy_explicit", "more_than_100_context_switches" };
+               "policy_random", "policy_pct", "policy_rr", "more_than_100_context_switches" };
 
 struct Job
 {
@@ -248,7 +248,7 @@ public:
       case sim::polRandom: st.probe( P_policy_random); break;
       case sim::polPct: st.probe( P_policy_pct); break;
       case sim::polRoundRobin: st.probe( P_policy_rr); break;
-      default: st.probe( P_policy_explicit); break;
+      default: break;   // explicit switch list: replays only
       }
       g_result = &res;
       sim::schedSetFatal( &onFatal);
